@@ -750,6 +750,11 @@ def iter_mutation_rule(ctx: Ctx, functions, rule: str = "ITERMUT") -> int:
                     hit = st
                 elif isinstance(st, ast.Delete) and any(isinstance(t, ast.Subscript) and same(src(t.value), target) for t in st.targets):
                     hit = st
+                elif isinstance(st, ast.AugAssign) and isinstance(st.op, (ast.Add, ast.Mult)) and isinstance(st.target, (ast.Name, ast.Attribute)) \
+                        and same(src(st.target), target) and isinstance(st.value, (ast.List, ast.ListComp, ast.Name, ast.Attribute, ast.Call)) \
+                        and not isinstance(st.value, ast.Constant):
+                    # `xs += [...]` extends the list in place (for a list; harmless for numbers, which are not iterated)
+                    hit = st
                 elif isinstance(st, ast.Assign) and any(isinstance(t, ast.Subscript) and isinstance(t.slice, ast.Slice) and same(src(t.value), target) for t in st.targets):
                     hit = st
                 if hit is None:
@@ -843,4 +848,83 @@ def lazy_state_rule(ctx: Ctx, functions, rule: str = "LAZY") -> int:
                          else "an object attribute is assigned a one-shot iterator") if bad else "ok",
               message=f"`{short(bad[0][1], 90)}`: the value can be iterated once; every later consumer sees it empty (or without the elements already taken)" if bad else "",
               file=bad[0][0].file if bad else next(iter(p.sources)), node=bad[0][1] if bad else None)
+    return n
+
+
+NUMERIC_FIELDS = {"time", "channel", "note", "velocity", "control", "program", "numerator", "denominator"}
+
+
+def misc_hazard_rules(ctx: Ctx, functions) -> int:
+    """Four more exact hazard classes, none of which occurs in the library today:
+    TRUTHY  a numeric message field (or a local copied from one) used as a truth value -- 0 is a legal time, channel, pitch and
+            velocity, so `if msg.time:` / `msg.velocity or 127` treat a legal value as missing;
+    EXCEPT  a bare / broad `except` whose handler does not re-raise (a failure inside an operation is swallowed);
+    SETORDER a loop or comprehension over a set (literal, set(...), set comprehension): the order of what it produces is arbitrary;
+    CLASSATTR an assignment to an attribute of a class object at run time (state shared by all instances)."""
+    p = ctx.p
+    n = 0
+    bad = {"TRUTHY": [], "EXCEPT": [], "SETORDER": [], "CLASSATTR": []}
+
+    def field_expr(e, field_locals):
+        if isinstance(e, ast.Attribute) and e.attr in NUMERIC_FIELDS and not isinstance(e.value, ast.Call):
+            return True
+        return isinstance(e, ast.Name) and e.id in field_locals
+
+    def truth_operands(t):
+        if isinstance(t, ast.BoolOp):
+            for v in t.values:
+                yield from truth_operands(v)
+        elif isinstance(t, ast.UnaryOp) and isinstance(t.op, ast.Not):
+            yield from truth_operands(t.operand)
+        else:
+            yield t
+    for q in sorted(functions):
+        fi = p.functions.get(q)
+        if fi is None:
+            continue
+        field_locals = {a.targets[0].id for a in ast.walk(fi.node) if isinstance(a, ast.Assign) and len(a.targets) == 1 and isinstance(a.targets[0], ast.Name)
+                        and isinstance(a.value, ast.Attribute) and a.value.attr in NUMERIC_FIELDS}
+        # a name that is also assigned something else is not a pure field copy
+        for a in ast.walk(fi.node):
+            if isinstance(a, ast.Assign) and len(a.targets) == 1 and isinstance(a.targets[0], ast.Name) and a.targets[0].id in field_locals \
+                    and not (isinstance(a.value, ast.Attribute) and a.value.attr in NUMERIC_FIELDS):
+                field_locals.discard(a.targets[0].id)
+        for x in ast.walk(fi.node):
+            tests = []
+            if isinstance(x, (ast.If, ast.While, ast.IfExp)):
+                tests = list(truth_operands(x.test))
+            elif isinstance(x, ast.BoolOp) and not isinstance(getattr(x, "_parent", None), (ast.If, ast.While, ast.IfExp, ast.BoolOp, ast.UnaryOp)):
+                tests = list(truth_operands(x))          # value context: `a.velocity or 127`
+            elif isinstance(x, ast.Assert):
+                tests = list(truth_operands(x.test))
+            for t in tests:
+                n += 1
+                if field_expr(t, field_locals):
+                    bad["TRUTHY"].append((fi, t))
+            if isinstance(x, ast.ExceptHandler):
+                n += 1
+                broad = x.type is None or (isinstance(x.type, ast.Name) and x.type.id in ("Exception", "BaseException"))
+                if broad and not any(isinstance(y, ast.Raise) for y in ast.walk(x)):
+                    bad["EXCEPT"].append((fi, x))
+            if isinstance(x, (ast.For, ast.comprehension)):
+                it = x.iter
+                if isinstance(it, (ast.Set, ast.SetComp)) or (isinstance(it, ast.Call) and isinstance(it.func, ast.Name) and it.func.id in ("set", "frozenset")):
+                    bad["SETORDER"].append((fi, it))
+            if isinstance(x, (ast.Assign, ast.AugAssign)):
+                for t in (x.targets if isinstance(x, ast.Assign) else [x.target]):
+                    if isinstance(t, ast.Attribute):
+                        ch = attr_chain(t)
+                        if ch and len(ch) == 2 and ch[0] in p.classes and fi.name != "__init_subclass__":
+                            bad["CLASSATTR"].append((fi, x))
+                        if ch and len(ch) == 3 and ch[:2] == ["self", "__class__"]:
+                            bad["CLASSATTR"].append((fi, x))
+    texts = {"TRUTHY": ("a numeric message field is used as a truth value", "0 is a legal value and would be treated as absent"),
+             "EXCEPT": ("a broad except swallows failures", "an error inside the operation leaves a half-updated result without any signal"),
+             "SETORDER": ("a set is iterated to produce ordered output", "the order of the produced elements is arbitrary"),
+             "CLASSATTR": ("a class attribute is assigned at run time", "the value is shared by all instances and by all later calls")}
+    for r_, items in bad.items():
+        ctx.check(not items, r_, f"{texts[r_][0].replace(' is ', ' is never ').replace(' swallows', ' never swallows')} (functions reached: {len(functions)})",
+                  function=items[0][0].qualname if items else "*", construct=texts[r_][0] if items else "ok",
+                  message=f"`{short(items[0][1], 80)}`: {texts[r_][1]}" if items else "", file=items[0][0].file if items else next(iter(p.sources)),
+                  node=items[0][1] if items else None)
     return n
